@@ -13,7 +13,7 @@ LOG="$ROOT/build/build.log"
 fail() { echo "BUILD-FAILED: $1" | tee -a "$LOG"; exit 2; }
 
 python3 harness/gen_driver.py >>"$LOG" 2>&1 || fail "gen_driver"
-PYTHONPATH=/repo /venv/bin/python translate/regen.py >>"$LOG" 2>&1 || fail "regen"
+PYTHONPATH=${PV_REPO:-/repo} /venv/bin/python translate/regen.py >>"$LOG" 2>&1 || fail "regen"
 
 cd coq
 {
